@@ -1,6 +1,7 @@
 package main
 
 import (
+	"errors"
 	"bytes"
 	"context"
 	"fmt"
@@ -117,6 +118,39 @@ func safeExec(ctx context.Context, s storage.Storage, op *vmodel.Op) (res *vmode
 		}
 	}()
 	return vmodel.Exec(ctx, s, op), ""
+}
+
+var errRollbackFailedOp = errors.New("harness: operation failed, roll the transaction back")
+
+// safeExecTx runs op on the storage that s.WithTransaction hands to its callback;
+// a failed operation rolls the transaction back.
+func safeExecTx(ctx context.Context, s storage.Storage, op *vmodel.Op) (res *vmodel.Result, panicked string) {
+	ts, ok := s.(storage.TransactionalStorage)
+	if !ok {
+		return safeExec(ctx, s, op)
+	}
+	defer func() {
+		if p := recover(); p != nil {
+			buf := make([]byte, 8192)
+			n := runtime.Stack(buf, false)
+			panicked = fmt.Sprintf("%v\n%s", p, buf[:n])
+			res = &vmodel.Result{Kind: "panic", ErrText: fmt.Sprint(p)}
+		}
+	}()
+	err := ts.WithTransaction(ctx, nil, func(ctx context.Context, tx storage.Storage) error {
+		res = vmodel.Exec(context.WithValue(ctx, vmodel.HeadInCallerCtx{}, true), tx, op)
+		if res.Kind != "" {
+			return errRollbackFailedOp
+		}
+		return nil
+	})
+	if err != nil && res != nil && res.Kind == "" {
+		res = &vmodel.Result{Err: err, Kind: vmodel.ErrKind(err), ErrText: err.Error()}
+	}
+	if res == nil {
+		res = &vmodel.Result{Err: err, Kind: vmodel.ErrKind(err), ErrText: fmt.Sprint(err)}
+	}
+	return res, ""
 }
 
 type probeArgs struct {
@@ -349,6 +383,7 @@ func (h *c20Hist) checkKey(kr keyRef, cause string) {
 
 func (h *c20Hist) run() {
 	ctx := h.ctx
+	txRng := h.rng.Fork("via-tx")
 	allKeys := []keyRef{}
 	for _, b := range h.prof.Buckets {
 		for _, k := range h.prof.Keys {
@@ -386,7 +421,14 @@ func (h *c20Hist) run() {
 			}
 		} else {
 			var panicked string
-			res, panicked = safeExec(ctx, h.mw, op)
+			if txRng.Chance(30) {
+				// the mutation is issued through the storage handed to the callback of the
+				// middleware's own WithTransaction (storage.TransactionalStorage)
+				res, panicked = safeExecTx(ctx, h.mw, op)
+				h.r.Count("mutations_via_middleware_WithTransaction", 1)
+			} else {
+				res, panicked = safeExec(ctx, h.mw, op)
+			}
 			if panicked != "" {
 				h.st.commit(op, exp, res)
 				cls := "other"
